@@ -144,13 +144,10 @@ Definition stripe_excess (c : scfg) (sched : list (nat * nat)) (j : nat) : Z :=
 
 (* the schedule-independent answer when no cursor wraps: per stripe, consecutive claims of chunkSize from the
    stripe's begin, the last one clipped at the stripe's end *)
-Fixpoint chunks_from (b e step : Z) (n : nat) : list (Z * Z) :=
-  match n with
-  | O => []
-  | S n' => if e <=? b then [] else (b, Z.min (b + step) e) :: chunks_from (b + step) e step n'
-  end.
 Definition stripe_chunks (step : Z) (be : Z * Z) : list (Z * Z) :=
-  chunks_from (fst be) (snd be) step (Z.to_nat (stripe_nclaims (fst be) (snd be) step)).
+  let '(b, e) := be in
+  map (fun i => (b + Z.of_nat i * step, Z.min (b + (Z.of_nat i + 1) * step) e))
+      (seq 0 (Z.to_nat (stripe_nclaims b e step))).
 Definition stripe_canon (c : scfg) : list (Z * Z) :=
   flat_map (stripe_chunks (sc_step c)) (stripe_bounds c) ++ sc_tail c.
 
